@@ -1088,16 +1088,32 @@ pub fn run_check(def: &CheckDef, tier: Tier, seed: u64, scale: f64) -> CheckResu
                 (None, None) => confirm.hang == confirm2.hang,
                 _ => false,
             };
+            let mut unstable_trace = false;
             if !same {
-                harness_problems.push(format!(
-                    "{} index {}: replay of {} is not exactly repeatable",
-                    name, idx, v.key
-                ));
-                continue;
+                // the violation reproduced twice with different event traces: if it keeps
+                // reproducing in fresh processes it is reported - the code under test then
+                // behaves nondeterministically outside the seams (e.g. iteration order of a
+                // randomly keyed hash map); if it does not, nothing about it is to be believed
+                let again = (0..3).all(|_| violates(&exec_in_child(name, &min_plan, false, 20), &v.property, &v.key));
+                if !again {
+                    harness_problems.push(format!(
+                        "{} index {}: replay of {} is not exactly repeatable",
+                        name, idx, v.key
+                    ));
+                    continue;
+                }
+                unstable_trace = true;
             }
             let path = write_replay(
                 &v.property, name, seed, idx, tier, &plan, &min_plan, &confirm, &v.key, execs,
             );
+            if unstable_trace {
+                if let Some(mut doc) = std::fs::read(&path).ok().and_then(|b| serde_json::from_slice::<Value>(&b).ok()) {
+                    doc["repeatability"] = json!("the violation reproduced in 5 of 5 fresh processes, but their event traces differ: the code under test behaves nondeterministically outside the simulator's seams; the recorded trace hash is one of several");
+                    let _ = std::fs::write(&path, serde_json::to_vec_pretty(&doc).unwrap());
+                }
+                println!("note: {} reproduces in every fresh process but with differing traces (nondeterminism inside the code under test)", v.key);
+            }
             reported.push((name.to_string(), v.key.clone(), path));
         }
         merge(&mut total, b);
